@@ -241,7 +241,8 @@ __CPROVER_assigns(g_clock, g_processes, g_t_first_process, g_last_pending_valid)
 void BW_flush_sinks(BW* self, bool periodic, int64_t interval)
 __CPROVER_requires(periodic && interval == self->_options.sink_min_flush_interval) /*@ C06 "the idle flush honours the configured minimum flush interval and runs the sinks' periodic tasks" */
 __CPROVER_assigns(g_clock, g_flushes) __CPROVER_ensures(TICK && g_flushes == OLD(g_flushes) + 1);
-void BW__check_failure_counter(BW* self) __CPROVER_assigns(g_clock, g_failure_checks) __CPROVER_ensures(TICK && g_failure_checks == OLD(g_failure_checks) + 1);
+size_t g_t_failure_check;
+void BW__check_failure_counter(BW* self) __CPROVER_assigns(g_clock, g_failure_checks, g_t_failure_check) __CPROVER_ensures(TICK && g_failure_checks == OLD(g_failure_checks) + 1 && g_t_failure_check == g_clock);
 void BW__resync_rdtsc_clock(BW* self) __CPROVER_assigns(g_resyncs) __CPROVER_ensures(g_resyncs == OLD(g_resyncs) + 1);
 bool BW__check_frontend_queues_and_cached_transit_events_empty(BW* self) __CPROVER_assigns(g_clock, g_t_empty_check, g_empty_checks, g_all_empty) __CPROVER_ensures(TICK && g_t_empty_check == g_clock && g_empty_checks == OLD(g_empty_checks) + 1 && g_all_empty == RET);
 void BW__cleanup_invalidated_thread_contexts(BW* self)
@@ -259,7 +260,7 @@ void THREAD_YIELD(void) __CPROVER_assigns(g_yields) __CPROVER_ensures(g_yields =
 #define BW_has_pending_events_for_caching_when_transit_event_buffer_empty(self) BW_has_pending(self)
 '''
 bw_poll = dict(
-    name='BW.poll', primary='C05', props={'C05', 'C03', 'C06', 'C09', 'C17', 'C20'}, kind='S',
+    name='BW.poll', primary='C05', props={'C08', 'C05', 'C03', 'C06', 'C09', 'C17', 'C20'}, kind='S',
     desc='BackendWorker::_poll, one pass: refresh the threads, read the queues, then either write (one event below the soft limit, a checked batch above it) or - only when nothing was read - flush, report drops, and reclaim / sleep only if everything was found empty',
     structs=[], prelude=PO_PRELUDE, enforce='BW__poll',
     replace=['BW__update_active_thread_contexts_cache', 'BW__populate_transit_events_from_frontend_queues', 'BW_has_pending', 'BW__process_lowest_timestamp_transit_event', 'BW_flush_sinks', 'BW__check_failure_counter',
@@ -278,6 +279,7 @@ __CPROVER_loop_invariant(g_populates == 1 && g_cached != 0 && g_cached >= self->
 '''},
                 contract=r'''
 __CPROVER_requires(__CPROVER_is_fresh(self, sizeof(*self)) && g_clock == 0 && g_updates == 0 && g_populates == 0 && g_processes == 0 && g_pending_checks == 0 && g_flushes == 0 && g_failure_checks == 0 && g_empty_checks == 0 && g_cleanups_tc == 0 && g_cleanups_lg == 0 && g_sleeps == 0 && g_yields == 0 && !g_last_pending_valid && g_t_first_process == 0)
+__CPROVER_assigns(g_t_failure_check)
 __CPROVER_assigns(g_clock, g_t_update, g_t_populate, g_t_first_process, g_t_empty_check, g_t_sleep, g_t_cleanup_tc, g_t_cleanup_lg, g_updates, g_populates, g_processes, g_pending_checks, g_flushes, g_failure_checks, g_empty_checks, g_cleanups_tc, g_cleanups_lg, g_shrinks, g_sleeps, g_yields, g_resyncs, g_cached, g_last_pending, g_last_pending_valid, g_all_empty, self->_wake_up_flag)
 __CPROVER_ensures(g_updates == 1 && g_populates == 1 && g_t_update < g_t_populate) /*@ C03 "every pass refreshes the set of threads and then reads every queue once" */
 __CPROVER_ensures(g_processes > 0 ==> (g_cached != 0 && g_flushes == 0 && g_sleeps == 0 && g_cleanups_tc == 0 && g_cleanups_lg == 0)) /*@ C05 "events are written only when this pass buffered something (and, by the precondition of the processing step, after it read the queues); a pass that writes neither sleeps nor reclaims" */
@@ -285,6 +287,7 @@ __CPROVER_ensures(g_cached == 0 ==> (g_processes == 0 && g_flushes == 1 && g_fai
 __CPROVER_ensures((g_cleanups_tc + g_cleanups_lg + g_sleeps + g_yields > 0) ==> (g_cached == 0 && g_all_empty)) /*@ C20,C17,C09 "reclaiming, sleeping and yielding happen only when every queue and buffer was found empty" */
 __CPROVER_ensures((g_cached == 0 && g_all_empty) ==> (g_cleanups_tc == 1 && g_cleanups_lg == 1)) /*@ C20 "whenever everything is empty, exited threads and removed loggers are reclaimed in that very pass" */
 __CPROVER_ensures(g_sleeps == 1 ==> (!self->_wake_up_flag && g_t_cleanup_tc < g_t_sleep && g_t_cleanup_lg < g_t_sleep)) /*@ C07 "the wake-up flag is consumed by the sleep it ended" */
+__CPROVER_ensures(g_cleanups_tc >= 1 ==> (g_failure_checks >= 1 && g_t_failure_check < g_t_cleanup_tc)) /*@ C08 "an idle pass reports the discard counts BEFORE it reclaims the contexts of exited threads (a reclaimed context takes its counter with it): reported drops add up to the discarded statements" */
 ''')],
     harness='  BW* s; BW__poll(s);',
     dropped=['std::unique_lock / condition_variable::wait_for as one stub (spurious wake-ups and time-outs are the same event to the caller)', 'the error notifier argument of _check_failure_counter', 'std::chrono durations as integers'],
